@@ -22,6 +22,7 @@ import (
 func TestMain(m *testing.M) {
 	vh.Rule("rapid: a response from a grammar over all server-side package types and data types (result sets with narrow/wide formats, ORDERBY, rows incl. NULLs, PARAMFMT/PARAMS, RETURNSTATUS, DONEPROC/DONEINPROC, MSG, LOGINACK, CAPABILITY, DYNAMIC ack, CURINFO, ERROR, interleaved ENVCHANGE/EED, terminated by DONE(FINAL), a non-final DONE or nothing) x a cut set (none, single, every byte, few, random density; incl. empty bodies = header-only packets) x for the byte level a partition of the TCP byte stream into read() results (whole, per packet, 1..7-byte reads, random, header-splitting; optionally io.EOF reported together with the last bytes), extra status bits (ATTNACK, EVENT) next to EOM in the packet headers, the client's own request completing only after the first response packets have arrived; run A = one packet/one read, run B = fragmented; exhaustive: every single cut (and every pair of cuts, thorough) of every response <= 160 bytes drawn, all 2^(n-1) cut sets of 5 streams of <= 15 bytes. Oracle: delivered package sequences of A and B are reflect.DeepEqual (same build), A equals the delivery model field by field, no error on the channel or connection error queue. Non-trivial: a cut falls strictly inside a package or a read splits a packet header; distinct by (response, cuts, reads)")
 	vh.Assume("server packets carry type RESPONSE on channel 0 with EOM on the last packet; non-informational EED only between statements (the library resolves a row's format through the last delivered package); a DONE-family package with status 0 only as the last delivered package; responses are kept short (strings <= 40 bytes) so that cut sets can be enumerated")
+	vh.Rule("also: Info.DebugLogPackages is on in a quarter of the cases (every package is printed while it is sent / received)")
 	vh.QuietLog()
 	vh.Main(m, "C02")
 }
